@@ -173,3 +173,60 @@ def _op_roundtrip(B):
     inv_arg_is_tz = z3.Not(p)
     r = z3.If(p, t, itz)                               # contract of inverse_transform applied to t (inner inverse of tz is itz)
     return [("roundtrip", r == z)]
+
+
+# ----------------------------------------------------------------------------- Detrender: subtract / add the trend forecast at the series' own time points
+DTR = "sktime/transformations/series/detrend/_detrend.py"
+from contracts.C10_update import abstract_forecaster    # noqa: E402
+from contracts.C01_split import sym_series              # noqa: E402
+from contracts.C07_evaluate import trace as _trace      # noqa: E402
+
+
+def _dtr_inputs(B, case):
+    I = B.I
+    ok, cls = I.mod_global(I.src.module("sktime.transformations.series.detrend._detrend"), "Detrender")
+    obj = I.instantiate(cls, [abstract_forecaster(B, "configured_trend_forecaster")], {})
+    fitted = abstract_forecaster(B, "fitted_trend_forecaster")
+    zz = sym_series(B, "z", nonempty=True)
+    T = B.arr("trend", dtype="real", shape=[zz.index.len])              # the forecaster's in-sample / out-of-sample forecast
+
+    def predict(I2, o, ev):
+        return SSeries(zz.index, T)
+    fitted.results = {"predict": predict}
+    obj.attrs.update(forecaster_=fitted, _is_fitted=case != "unfitted")
+    obj.ghost = dict(T=T, fitted=fitted)
+    return {"self": obj, "Z": zz, "X": None}
+
+
+def _dtr_post(sign):
+    def post(A, r):
+        g = A.self.ghost
+        evs = [e for e in _trace() if e.obj is g["fitted"]]
+        if len(evs) != 1 or evs[0].method != "predict" or not isinstance(r, SSeries):
+            return False
+        fh = evs[0].arg(0)
+        fhv = fh.attrs.get("_values") if isinstance(fh, SObj) else None
+        if fhv is None:
+            return False
+        n = A.Z.index.len
+        return And(equiv(fhv, A.Z.index), fh.attrs.get("_is_relative") is False,            # forecast asked for exactly the series' time points
+                   equiv(r.index, A.Z.index), Eq(r.values.len, n),
+                   ForAll(lambda i: Eq(r.values.fn(i), ops.simp(Z(A.Z.values.fn(i)) + sign * Z(g["T"].fn(i)))), 0, n, "i"))
+    return post
+
+
+for _m, _sg in (("transform", -1), ("inverse_transform", 1)):
+    contract(f"{DTR}::Detrender.{_m}", "C13,C12", cases=["fitted", "unfitted"], inputs=_dtr_inputs,
+             raises=[("NotFittedError", lambda A: A.self.attrs["_is_fitted"] is False)],
+             ensures=[("series-minus/plus-the-trend-forecast-at-its-own-time-points-same-index", _dtr_post(_sg), {"modular": False})],
+             frame=lambda A: [A.self, A.Z],
+             notes=["the fitted trend forecaster is abstract: predict(fh = absolute horizon of the series' own index) returns an arbitrary "
+                    "series on that index"])
+
+
+@lemma("C13/detrender-inverse-restores-the-series", "C13", uses=[f"{DTR}::Detrender.transform", f"{DTR}::Detrender.inverse_transform"])
+def _dtr_roundtrip(B):
+    """both directions query the SAME fitted forecaster at the SAME time points (contracts above), a deterministic forecaster
+    returns the same trend t both times: (z - t) + t == z"""
+    z, t = B.real("z"), B.real("t")
+    return [("roundtrip", (z - t) + t == z)]
